@@ -987,5 +987,7 @@ VacuitySets == {RS(<<"subneg">>, {"Sub"}, X, 2, 1, T, X, X, X, X, X), RS(<<"dbl"
 BuildOnly == phase = "build"
 CountHost == phase = "begin" => PrintT(<<"HOST", cfg.n>>)
 NoDevs == {}
-RealDevs == AllDevs
+\* init_clash_overwrite was real on the pinned tree and is repaired in /repo (fix db578e7: the new initializer gets a free name,
+\* as the design action RegisterInitializers says); the deviation stays in the module so that its return is recognised.
+RealDevs == AllDevs \ {"init_clash_overwrite"}
 =============================================================================
